@@ -15,7 +15,8 @@
 from __future__ import annotations
 
 import ast
-from typing import Any, List, Set
+import re
+from typing import Any, List, Set, Tuple
 
 from engine.effects import borrowed_names, mutations
 from engine.kvtext import conversion_of, emits_in
@@ -60,6 +61,100 @@ def _escaped_or_literal(node: ast.AST, defs: dict, depth: int = 0) -> bool:
     if isinstance(node, ast.Name) and node.id in defs:
         return all(_escaped_or_literal(v, defs, depth + 1) for v in defs[node.id])
     return False
+
+
+SPECIAL_CHARS = ['"', '\\', '\r', '\n', '\t', '\x07', '\x08', '\x0b', '\x0c']     # what escape_text rewrites, plus CR which the reader folds
+
+
+def escape_status(node: ast.AST, defs: dict, fn: ast.AST, mod: Any, depth: int = 0) -> Tuple[str, str]:
+    """('ok' | 'bad' | 'unknown', reason): is the expression, on every path, escape_text(...) of content or a literal?
+    Helpers that wrap escape_text and memo tables that hold escaped text are followed; nothing is inferred from names."""
+    if depth > 6:
+        return 'unknown', 'too deep'
+    if isinstance(node, ast.Constant) and isinstance(node.value, str):
+        return 'ok', ''
+    if isinstance(node, ast.IfExp):
+        a, b = escape_status(node.body, defs, fn, mod, depth + 1), escape_status(node.orelse, defs, fn, mod, depth + 1)
+        for st in ('bad', 'unknown'):
+            for x in (a, b):
+                if x[0] == st:
+                    return x
+        return 'ok', ''
+    if isinstance(node, ast.Call):
+        if conversion_of(node)[0] == 'escape_text':
+            return 'ok', ''
+        hname = node.func.id if isinstance(node.func, ast.Name) else None
+        if hname and mod.has_func(hname) and len(node.args) == 1:
+            return helper_status(mod.func(hname), mod)
+        return 'unknown', f'call `{ast.unparse(node.func)}` is not escape_text'
+    if isinstance(node, ast.Subscript) and isinstance(node.value, ast.Name):
+        return memo_status(node, fn, defs, mod, depth)
+    if isinstance(node, ast.Name) and node.id in defs:
+        worst = ('ok', '')
+        for v in defs[node.id]:
+            st = escape_status(v, defs, fn, mod, depth + 1)
+            if st[0] == 'bad':
+                return st
+            if st[0] == 'unknown':
+                worst = st
+        return worst
+    if _derives_from_content(node):
+        return 'bad', 'tree content written as it is'
+    return 'unknown', f'`{ast.unparse(node)[:40]}` not understood'
+
+
+def helper_status(h: ast.AST, mod: Any) -> Tuple[str, str]:
+    """a one-parameter wrapper around escape_text, possibly with a fast path `if PATTERN.fullmatch(text): return text`"""
+    params = [a.arg for a in h.args.args]          # type: ignore[attr-defined]
+    if len(params) != 1:
+        return 'unknown', 'helper arity'
+    prm = params[0]
+    for r in [x for x in ast.walk(h) if isinstance(x, ast.Return) and x.value is not None]:
+        v = r.value
+        if isinstance(v, ast.Call) and conversion_of(v)[0] == 'escape_text' and any(isinstance(a, ast.Name) and a.id == prm for a in v.args):
+            continue
+        if isinstance(v, ast.Name) and v.id == prm:
+            # raw return: only sound if the guarding test can hold for no string containing a character that needs escaping
+            par = mod.parents.get(r)
+            if not isinstance(par, ast.If) or r not in par.body:
+                return 'bad', f'{h.name}() returns its argument unescaped'       # type: ignore[attr-defined]
+            pat = None
+            for c in ast.walk(par.test):
+                if isinstance(c, ast.Call) and isinstance(c.func, ast.Attribute) and c.func.attr == 'fullmatch' and isinstance(c.func.value, ast.Name):
+                    try:
+                        pv = mod.global_assign(c.func.value.id)
+                    except AnalysisError:
+                        pv = None
+                    if isinstance(pv, ast.Call) and dotted(pv.func) in ('re.compile', 'compile') and pv.args and isinstance(pv.args[0], ast.Constant):
+                        pat = pv.args[0].value
+            if pat is None:
+                return 'unknown', f'fast path test `{ast.unparse(par.test)[:50]}` of {h.name}() not understood'      # type: ignore[attr-defined]
+            try:
+                rx = re.compile(pat)
+            except re.error:
+                return 'unknown', 'fast path pattern does not compile'
+            hit = [c for c in SPECIAL_CHARS if rx.fullmatch('a' + c + 'b') or rx.fullmatch(c)]
+            if hit:
+                return 'bad', (f'{h.name}() returns text unescaped when it matches `{pat}`, and that pattern accepts {hit[0]!r}: the character is written raw '      # type: ignore[attr-defined]
+                               '(a raw CR inside quotes is read back as LF, a quote ends the string)')
+            continue
+        return 'unknown', f'{h.name}() returns `{ast.unparse(v)[:40]}`'        # type: ignore[attr-defined]
+    return 'ok', ''
+
+
+def memo_status(sub: ast.Subscript, fn: ast.AST, defs: dict, mod: Any, depth: int) -> Tuple[str, str]:
+    """`table[key]` read back into a quoted slot: every value stored in the table must be escaped text of exactly the string used as key"""
+    tbl = sub.value.id       # type: ignore[attr-defined]
+    stores = [(t, a.value) for a in walk_no_nested(fn) if isinstance(a, ast.Assign) for t in a.targets if isinstance(t, ast.Subscript) and dotted(t.value) == tbl]
+    if not stores:
+        return 'unknown', f'table `{tbl}` is filled elsewhere'
+    for t, v in stores:
+        if not (isinstance(v, ast.Call) and conversion_of(v)[0] == 'escape_text' and v.args):
+            return 'unknown', f'`{tbl}` also holds `{ast.unparse(v)[:40]}`'
+        if ast.unparse(t.slice) != ast.unparse(v.args[0]) or ast.unparse(sub.slice) != ast.unparse(t.slice):
+            return 'bad', (f'the table `{tbl}` is keyed by `{ast.unparse(t.slice)}` but holds the escaped form of `{ast.unparse(v.args[0])}`: two different strings with the same key '
+                           '(names differing only in case) are written with the spelling of the first')
+    return 'ok', ''
 
 
 STRUCTURAL_TESTS = ('isinstance(self._value, list)', 'self._real_name is None', 'self._real_name is not None',
@@ -126,10 +221,14 @@ def run(ctx: Any, prog: Program) -> None:
                 uses_indent = bool(set(names_in(s.node)) & derived)
                 if s.quoted:
                     if content:
-                        ctx.check('C01.R1', _escaped_or_literal(s.node, defs), kv, s.emit,
-                                  f'`{ast.unparse(s.node)}` is written inside quotes in {s.position} position without escape_text(); '
-                                  'a quote or backslash in it ends the token early / is decoded as an escape by the reader',
-                                  text=f'{s.position} slot {ast.unparse(s.node)}')
+                        status, why = escape_status(s.node, defs, fn, kv)
+                        if status == 'unknown':
+                            ctx.shape('C01.R1', False, kv, s.emit, f'`{ast.unparse(s.node)}` in {s.position} position: {why}', text=f'{s.position} slot {ast.unparse(s.node)}')
+                        else:
+                            ctx.check('C01.R1', status == 'ok', kv, s.emit,
+                                      f'`{ast.unparse(s.node)}` is written inside quotes in {s.position} position: {why or "escaped"}' + ('' if status == 'ok' else
+                                      '; a quote or backslash in it ends the token early / is decoded as an escape by the reader' if why == 'tree content written as it is' else ''),
+                                      text=f'{s.position} slot {ast.unparse(s.node)}')
                     ctx.check('C01.R2', not uses_indent, kv, s.emit,
                               f'indentation option `{ast.unparse(s.node)}` is written inside a quoted string: the token stream would depend on it',
                               text=f'quoted slot {ast.unparse(s.node)} indent-free')
@@ -295,6 +394,8 @@ def _in_orelse(ifnode: ast.If, node: ast.AST, mod: Any) -> bool:
 
 
 MUTANTS = [
+    {'id': 'escape_wrapper_fast_path_accepts_cr', 'file': 'keyvalues.py', 'find': """            file.write(f'{cur_indent}"{escape_text(self._real_name)}" "{escape_text(self._value)}"\\n')\n\n    serialize""", 'replace': """            file.write(f'{cur_indent}"{_escape(self._real_name)}" "{_escape(self._value)}"\\n')\n\n    serialize""", 'extra': [{'file': 'keyvalues.py', 'find': "def _read_flag(", 'replace': "_PLAIN_TEXT = re.compile(r'[\\w\\s./+:,-]*')\n\n\ndef _escape(text: str) -> str:\n    if _PLAIN_TEXT.fullmatch(text) is not None:\n        return text\n    return escape_text(text)\n\n\ndef _read_flag("}, {'file': 'keyvalues.py', 'find': "import sys\n", 'replace': "import sys\nimport re\n"}], 'expect': 'C01.R1'},
+    {'id': 'escape_wrapper_fast_path_words_only', 'file': 'keyvalues.py', 'find': """            file.write(f'{cur_indent}"{escape_text(self._real_name)}" "{escape_text(self._value)}"\\n')\n\n    serialize""", 'replace': """            file.write(f'{cur_indent}"{_escape(self._real_name)}" "{_escape(self._value)}"\\n')\n\n    serialize""", 'extra': [{'file': 'keyvalues.py', 'find': "def _read_flag(", 'replace': "_PLAIN_TEXT = re.compile(r'[A-Za-z0-9_ ./+:,-]*')\n\n\ndef _escape(text: str) -> str:\n    if _PLAIN_TEXT.fullmatch(text) is not None:\n        return text\n    return escape_text(text)\n\n\ndef _read_flag("}, {'file': 'keyvalues.py', 'find': "import sys\n", 'replace': "import sys\nimport re\n"}], 'expect': None},
     {'id': 'leaf_escaped_jointly_and_split', 'file': 'keyvalues.py', 'find': """            file.write(f'{cur_indent}"{escape_text(self._real_name)}" "{escape_text(self._value)}"\\n')\n\n    serialize""", 'replace': """            name, _, value = escape_text(f'{self._real_name}\\x1f{self._value}').partition('\\x1f')\n            file.write(f'{cur_indent}"{name}" "{value}"\\n')\n\n    serialize""", 'expect': 'C01.R1'},
     {'id': 'parse_stops_at_nul_name', 'file': 'keyvalues.py', 'find': "            if token_type is STRING:   # \"string\"\n", 'replace': "            if token_type is STRING:   # \"string\"\n                if token_value.startswith('\\x00'):\n                    break\n", 'expect': 'C01.R7'},
     {'id': 'key_newline_test_by_splitlines', 'file': 'keyvalues.py', 'find': "                if not newline_keys and ('\\n' in token_value or '\\r' in token_value):", 'replace': "                if not newline_keys and len(token_value.splitlines()) > 1:", 'expect': 'C01.R7'},
